@@ -643,6 +643,10 @@ class Program:
                 a = F(e.args[0])
                 if isinstance(a, str):
                     return ("struct.Struct", a)          # a precompiled format (hashable constant)
+            if fname == "range" and 1 <= len(e.args) <= 3 and not e.keywords:
+                a = [F(x) for x in e.args]
+                if all(isinstance(x, int) and not isinstance(x, bool) for x in a) and (len(a) < 3 or a[2] != 0):
+                    return range(*a)          # (hashable constant)
             if fname == "slice" and 1 <= len(e.args) <= 3 and not e.keywords:
                 a = [F(x) for x in e.args]
                 if all(x is None or (isinstance(x, int) and not isinstance(x, bool)) for x in a):
@@ -749,6 +753,23 @@ class Program:
             return ["BaseException"]
         if isinstance(h.type, ast.Tuple):
             return [self.exc_name(m, x, cls) for x in h.type.elts]
+        # `except NAMED_TUPLE:` with a module / class level constant tuple of exception classes
+        if isinstance(h.type, (ast.Name, ast.Attribute)):
+            node, dm, dc = None, m, cls
+            if isinstance(h.type, ast.Name):
+                r = self.resolve_name(m, h.type.id, cls)
+                if isinstance(r, tuple) and r and r[0] == "modconst":
+                    dm = r[1]
+                    node = self.module_assigns(dm).get(r[2])
+                    dc = None
+            elif isinstance(h.type.value, ast.Name):
+                r = self.resolve_name(m, h.type.value.id, cls)
+                k = cls if h.type.value.id in ("self", "cls") else (r if isinstance(r, ClassInfo) else None)
+                a = self.lookup_class_attr(k, h.type.attr) if k is not None else None
+                if a is not None:
+                    node, dm, dc = a[1], a[0].module, a[0]
+            if isinstance(node, ast.Tuple):
+                return [self.exc_name(dm, x, dc) for x in node.elts]
         return [self.exc_name(m, h.type, cls)]
 
 
